@@ -37,6 +37,7 @@ IsLead(cfg, t) == t = cfg.lead
 Off(cfg, t) == cfg.tracks[t].off
 FirstSegId(cfg) == IF cfg.variant = "ll" THEN 7 ELSE 0
 NumGaps(cfg) == IF cfg.variant = "ll" THEN 7 ELSE 0
+NoEmit(cfg) == "noemit" \in DOMAIN cfg /\ cfg.noemit = 1   \* fragments are not decoded in this trace
 AudioOnlyTS(cfg) == cfg.variant = "mpegts" /\ cfg.tracks[cfg.lead].k = "a"
 MinAU(cfg) == IF "minAU" \in DOMAIN cfg THEN cfg.minAU ELSE 100
 StreamOfTrack(cfg, t) == CHOOSE s \in 1..NS(cfg) : \E i \in 1..Len(cfg.streams[s].tracks) : cfg.streams[s].tracks[i] = t
@@ -77,9 +78,12 @@ MonInit(cfg) ==
     lastPart |-> [s \in 1..NS(cfg) |-> -1],
     maxTd    |-> 0,
     segsz    |-> <<>>,                          \* payload bytes per (stream, segment) seen so far (recent)
+    mvServed |-> FALSE,
+    refD     |-> 0,                             \* C19: duration of the first non-final part seen
+    refPT    |-> 0,
     werr     |-> FALSE,                         \* a Write returned an error: the trace has ended
     dbg      |-> <<>>,
-    f        |-> [c01 |-> TRUE, c02 |-> TRUE, c03 |-> TRUE, c04 |-> TRUE, c05 |-> TRUE, c18 |-> TRUE] ]
+    f        |-> [c01 |-> TRUE, c02 |-> TRUE, c03 |-> TRUE, c04 |-> TRUE, c05 |-> TRUE, c18 |-> TRUE, c19 |-> TRUE, c16 |-> TRUE] ]
 
 -----------------------------------------------------------------------------
 (* C01: every accepted unit comes out once, in order, unchanged, from the start point on *)
@@ -166,13 +170,13 @@ LeadOffer(cfg, m, w, firstOfWrite) ==
                        !.expB = IF due THEN Append(m.expB, e) ELSE m.expB,
                        !.segStart = IF due THEN w.dts ELSE m.segStart,
                        !.segCnt = IF due THEN 1 ELSE IF firstOfWrite THEN m.segCnt + 1 ELSE m.segCnt,
-                       !.lq = Append(m.lq, [id |-> w.id, dts |-> w.dts, ra |-> w.ra, ntp |-> w.ntp])]
+                       !.lq = IF NoEmit(cfg) THEN <<>> ELSE Append(m.lq, [id |-> w.id, dts |-> w.dts, ra |-> w.ra, ntp |-> w.ntp])]
 
 RECURSIVE OfferUnits(_, _, _, _, _)
 OfferUnits(cfg, m, t, us, first) ==
   IF us = <<>> THEN m
   ELSE LET w  == Head(us)
-           m1 == [m EXCEPT !.pend[t] = Append(m.pend[t], w),
+           m1 == [m EXCEPT !.pend[t] = IF NoEmit(cfg) THEN <<>> ELSE Append(m.pend[t], w),
                            !.firstAfter[t] = IF m.created /\ m.firstAfter[t] = 0 /\ ~IsLead(cfg, t)
                                                 /\ (cfg.variant = "mpegts" \/ w.dts + Off(cfg, t) >= 0)
                                              THEN w.id ELSE m.firstAfter[t]]
@@ -290,6 +294,8 @@ C04Agree(cfg, a, b) ==     \* two streams of one muxer at the same instant
 (* C05 / C18: probes of every URI seen so far; directory *)
 
 ListedSegIds(pl) == {pl.ent[i].id : i \in {j \in 1..Len(pl.ent) : pl.ent[j].gap = 0}}
+AllParts(pl) == CatSeq([i \in 1..Len(pl.ent) |-> pl.ent[i].parts]) \o pl.open
+
 PartIdsOf(pl) ==
   UNION {{pl.ent[i].parts[j].id : j \in 1..Len(pl.ent[i].parts)} : i \in 1..Len(pl.ent)}
     \cup {pl.open[j].id : j \in 1..Len(pl.open)}
@@ -319,6 +325,28 @@ DirOK(cfg, cps, dir) ==
      /\ d.s >= 1
      /\ (cps[d.s].ok = 1) =>
            (d.id \in ListedSegIds(cps[d.s]) \/ d.id = cps[d.s].msn + Len(cps[d.s].ent))
+
+(* C19: with a constant sample duration of the leading track (cfg.constSd > 0, in ticks) the non-final
+   parts are regular.  Non-final = every listed part except the last part of each listed segment; the
+   parts of the open segment are all non-final (a part cut by a segment rotation is only listed once its
+   segment is complete). *)
+NonFinalParts(pl) ==
+  CatSeq([i \in 1..Len(pl.ent) |->
+            IF pl.ent[i].parts = <<>> THEN <<>> ELSE SubSeq(pl.ent[i].parts, 1, Len(pl.ent[i].parts) - 1)])
+    \o pl.open
+
+C19Playlist(cfg, pl, refD) ==     \* refD: duration of the first non-final part ever seen (0 = none yet)
+  LET nf == NonFinalParts(pl)
+      sd == cfg.constSd
+      pm == cfg.partMin
+  IN \A i \in 1..Len(nf) :
+       LET D == nf[i].dur IN
+       /\ (refD > 0 => D = refD)                                   \* EqualNonFinal (whole history)
+       /\ D = nf[1].dur
+       /\ cfg.msn * D <= pl.pt * cfg.msd                            \* D <= PART-TARGET  (msn/msd = 1000/ups reduced)
+       /\ 100 * cfg.msn * D >= 85 * pl.pt * cfg.msd                 \* D >= 0.85 PART-TARGET
+       /\ D >= pm                                                   \* AtLeastMin
+       /\ D < 2 * Max(pm, sd) + sd                                  \* UpperBound
 
 \* C18 ResolvableLE: what left the window stops resolving
 C18Gone(cfg, cps, probes) ==
@@ -354,6 +382,52 @@ AddSizes(acc, pend, emits) ==
        IN AddSizes(acc2, pend, Tail(emits))
 
 -----------------------------------------------------------------------------
+(* C16: the multivariant playlist *)
+
+IsVideoTrack(cfg, t) == cfg.tracks[t].k = "v"
+HasVideo(cfg) == \E t \in 1..NT(cfg) : IsVideoTrack(cfg, t)
+
+\* streams that must appear as EXT-X-MEDIA renditions (fMP4 variants): every non-leading stream, and the
+\* leading one too when it is an audio track of a multi-track muxer
+IsRenditionStream(cfg, s) ==
+  /\ cfg.variant # "mpegts"
+  /\ LET t == cfg.streams[s].tracks[1] IN (t # cfg.lead) \/ (cfg.tracks[t].k = "a" /\ NT(cfg) > 1)
+
+RenditionStreams(cfg) == {s \in 1..NS(cfg) : IsRenditionStream(cfg, s)}
+
+\* the rendition that must be DEFAULT: the one whose track the user marked, else the first
+DefaultStream(cfg) ==
+  LET rs == RenditionStreams(cfg)
+      marked == {s \in rs : cfg.tracks[cfg.streams[s].tracks[1]].def = 1}
+  IN IF marked # {} THEN CHOOSE s \in marked : TRUE
+     ELSE CHOOSE s \in rs : \A x \in rs : s <= x
+
+GenOfTrack(cfg, m, t) == IF t = cfg.lead /\ IsVideoTrack(cfg, t) THEN m.gen ELSE 1
+
+C16MV(cfg, m, mv) ==
+  LET expC == {mv.cexp[t][GenOfTrack(cfg, m, t)] : t \in 1..NT(cfg)}
+      got  == {mv.codecs[i] : i \in 1..Len(mv.codecs)}
+      rs   == RenditionStreams(cfg)
+      g    == m.gen
+  IN /\ mv.nvar = 1                                              \* OneVariant
+     /\ mv.vs = cfg.leadStream /\ mv.vq = 1                      \* VariantURIIsLeading, QueryPreserved
+     /\ got = expC /\ Len(mv.codecs) = Cardinality(expC)          \* CodecsListEveryTrackOnce (current generation)
+     /\ HasVideo(cfg) =>                                          \* ResolutionFpsOfCurrentGen
+           /\ (mv.rexp[g] # "" => mv.res = mv.rexp[g])
+           /\ (mv.fexp[g] # "" => mv.fps = mv.fexp[g])
+     /\ Len(mv.rend) = Cardinality(rs)                            \* RenditionPerNonLeadingAudio: each exactly once
+     /\ {mv.rend[i].s : i \in 1..Len(mv.rend)} = rs
+     /\ \A i \in 1..Len(mv.rend) :
+           LET r == mv.rend[i] IN
+           /\ r.type = "AUDIO" /\ r.group = "audio" /\ mv.audio = "audio"
+           /\ r.nameok = 1 /\ r.langok = 1 /\ r.qok = 1
+           /\ (r.uri = 1) <=> (r.s # cfg.leadStream)             \* URI unless it is the leading stream
+           /\ (r.def = 1) <=> (r.s = DefaultStream(cfg))         \* ExactlyOneDefault
+     /\ (rs = {}) => mv.audio = ""
+     /\ mv.bw >= mv.abw /\ mv.abw > 0                            \* BandwidthOrder
+     /\ mv.bwok # 0                                               \* BandwidthIsPeakMean (single-stream muxers)
+
+-----------------------------------------------------------------------------
 (* one monitor step *)
 
 Prune(cfg, m) ==
@@ -367,7 +441,7 @@ Prune(cfg, m) ==
 
 HasField(r, f) == f \in DOMAIN r
 
-MonStep(cfg, m, w) ==
+MonStep(cfg, m, w, want) ==
   IF m.werr THEN m
   ELSE IF w.ok # 1 THEN [m EXCEPT !.werr = TRUE]
   ELSE
@@ -382,36 +456,54 @@ MonStep(cfg, m, w) ==
       real == IF served(cfg.leadStream) THEN RealEntries(lp) ELSE <<>>
       xn   == IF real = <<>> THEN [id |-> -1] ELSE ExpBOf(cfg, m2, Last(real).id + 1)
       complete == (xn.id > 0 /\ m2.pend[cfg.lead] # <<>>) => Head(m2.pend[cfg.lead]).id >= xn.id
-      c01 == /\ EmitsWellFormed(cfg, w.emit)
+      c01 == IF "c01" \notin want THEN TRUE ELSE
+             /\ EmitsWellFormed(cfg, w.emit)
              /\ \A t \in 1..NT(cfg) : r[t].ok
              /\ complete
-      c02 == served(cfg.leadStream) => C02Leading(cfg, m2, lp)
-      c03 == \A s \in 1..NS(cfg) : served(s) =>
+      c02 == IF "c02" \notin want THEN TRUE ELSE
+             served(cfg.leadStream) => C02Leading(cfg, m2, lp)
+      c03 == IF "c03" \notin want THEN TRUE ELSE
+             \A s \in 1..NS(cfg) : served(s) =>
                 /\ C03Playlist(cfg, m2, cps[s], s = cfg.leadStream)
                 /\ (m.cp[s].ok = 1 => cps[s].td >= m.cp[s].td)          \* TargetMonotone
-      c04 == /\ \A s \in 1..NS(cfg) :
+      c04 == IF "c04" \notin want THEN TRUE ELSE
+             /\ \A s \in 1..NS(cfg) :
                    /\ cps[s].ok \in {0, 1}                  \* never an error status / unreadable playlist
                    /\ (m.cp[s].ok = 1 => served(s))          \* once served, always served
                    /\ served(s) => C04Single(cfg, cps[s])
                    /\ (served(s) /\ m.cp[s].ok = 1) => C04Pair(cfg, m.cp[s], cps[s])
              /\ \A s \in 1..NS(cfg) : (served(s) /\ served(cfg.leadStream)) => C04Agree(cfg, lp, cps[s])
              /\ \A s \in 1..NS(cfg) : served(s) =>            \* part ids consecutive across the whole history
-                   LET ids == PartIdsOf(cps[s]) IN
-                   (ids # {} /\ m.lastPart[s] >= 0) =>
-                       \A p \in ids : p <= m.lastPart[s] + 1 \/ (p - 1) \in ids
-      c05 == HasField(w, "probe") => C05Probes(cfg, cps, w.probe)
+                   LET ps == AllParts(cps[s]) IN
+                   (ps # <<>> /\ m.lastPart[s] >= 0) => ps[1].id <= m.lastPart[s] + 1
+      c05 == IF "c05" \notin want THEN TRUE ELSE
+             HasField(w, "probe") => C05Probes(cfg, cps, w.probe)
       sz  == AddSizes(m.segsz, m1.pend, w.emit)
-      c18 == /\ HasField(w, "dir") => DirOK(cfg, cps, w.dir)
+      c18 == IF "c18" \notin want THEN TRUE ELSE
+             /\ HasField(w, "dir") => DirOK(cfg, cps, w.dir)
              /\ \A s \in 1..NS(cfg) : served(s) => Len(cps[s].ent) <= cfg.segCount
              /\ HasField(w, "probe") => C18Gone(cfg, cps, w.probe)
              /\ \A i \in 1..Len(sz) : sz[i].size <= cfg.maxSize                       \* PayloadLEMax
+      isC19 == cfg.variant = "ll" /\ HasField(cfg, "constSd") /\ cfg.constSd > 0 /\ served(cfg.leadStream)
+      nfNow == IF isC19 THEN NonFinalParts(lp) ELSE <<>>
+      nfPrev == IF isC19 /\ m.cp[cfg.leadStream].ok = 1 THEN NonFinalParts(m.cp[cfg.leadStream]) ELSE <<>>
+      c19 == IF "c19" \notin want THEN TRUE ELSE
+             isC19 =>
+               /\ \A s \in 1..NS(cfg) : served(s) => C19Playlist(cfg, cps[s], m.refD)
+               \* PartTargetStable: consecutive playlists that both list a non-final part announce the same PART-TARGET
+               /\ (nfNow # <<>> /\ nfPrev # <<>>) => lp.pt = m.cp[cfg.leadStream].pt
+      c16 == IF "c16" \notin want \/ ~HasField(w, "mv") THEN TRUE ELSE
+               /\ w.mv.ok \in {0, 1} /\ (m.mvServed => w.mv.ok = 1) /\ w.panics = 0
+               /\ (w.mv.ok = 1) => C16MV(cfg, m2, w.mv)
       m3  == [m2 EXCEPT !.pp = m.cp, !.cp = cps,
+                        !.mvServed = (m.mvServed \/ (HasField(w, "mv") /\ w.mv.ok = 1)),
+                        !.refD = IF m.refD = 0 /\ nfNow # <<>> THEN nfNow[1].dur ELSE m.refD,
                         !.segsz = IF Len(sz) > 6 * NS(cfg) THEN DropN(sz, Len(sz) - 6 * NS(cfg)) ELSE sz,
                         !.lastPart = [s \in 1..NS(cfg) |->
-                            IF served(s) /\ PartIdsOf(cps[s]) # {}
-                            THEN Max(m.lastPart[s], CHOOSE x \in PartIdsOf(cps[s]) : \A y \in PartIdsOf(cps[s]) : y <= x)
+                            IF served(s) /\ cfg.variant = "ll"
+                            THEN LET ps == AllParts(cps[s]) IN IF ps = <<>> THEN m.lastPart[s] ELSE Max(m.lastPart[s], Last(ps).id)
                             ELSE m.lastPart[s]],
-                        !.f = [c01 |-> c01, c02 |-> c02, c03 |-> c03, c04 |-> c04, c05 |-> c05, c18 |-> c18],
+                        !.f = [c01 |-> c01, c02 |-> c02, c03 |-> c03, c04 |-> c04, c05 |-> c05, c18 |-> c18, c19 |-> c19, c16 |-> c16],
                         !.dbg = [wf |-> EmitsWellFormed(cfg, w.emit), tr |-> [t \in 1..NT(cfg) |-> r[t].ok], complete |-> complete]]
   IN Prune(cfg, m3)
 
